@@ -178,24 +178,43 @@ def run(ctx):
         for n in ast.walk(f.node):
             if isinstance(n, ast.Call) and u(n.func) in ("id.Tensor",) and n.args and isinstance(n.args[0], ast.JoinedStr):
                 ids.append(u(n.args[0]))
-    if ids and all(re.fullmatch(r"f'\{(self|assignment\.target)\.id\}_\{(self|assignment\.target)\.name\}'", x) for x in ids):
+    if ids and all((m_ := re.fullmatch(r"f'\{([\w.]+)\.id\}_\{([\w.]+)\.name\}'", x)) and m_.group(1) == m_.group(2) for x in ids):
         ctx.ok("C01.identifier-hygiene", f"tensor instance ids are f'{{id}}_{{name}}' ({len(ids)} constructors)")
     else:
         ctx.fail("C01.identifier-hygiene", "identifiable tensor ids", f"instance ids are built as {ids}, not int + '_' + user name: cursor names of different occurrences may coincide")
 
-    def bucket_kind(e):
-        t = u(e)
-        if t == "self.output.id":
-            return "REF"
-        if t.startswith("''.join(") and "self.layers" in t:
-            return "LAYERS"
-        return None
+    bucket_methods = {f.name: f.node for q, f in ix.funcs.items() if q.rsplit(".", 1)[0] == BUCKET}
+
+    def bucket_kind_for(fn):
+        def resolve(e, depth=0):
+            # a local bound once, or a no-argument helper method of the class with a single return
+            if depth > 4:
+                return e
+            if isinstance(e, ast.Name):
+                vals = [n.value for n in ast.walk(fn) if isinstance(n, ast.Assign) and len(n.targets) == 1 and isinstance(n.targets[0], ast.Name) and n.targets[0].id == e.id]
+                if len(vals) == 1:
+                    return resolve(vals[0], depth + 1)
+            if isinstance(e, ast.Call) and not e.args and not e.keywords and isinstance(e.func, ast.Attribute) and u(e.func.value) == "self" and e.func.attr in bucket_methods:
+                rets = [n.value for n in ast.walk(bucket_methods[e.func.attr]) if isinstance(n, ast.Return) and n.value is not None]
+                if len(rets) == 1:
+                    return resolve(rets[0], depth + 1)
+            return e
+
+        def kind(e):
+            t = u(resolve(e))
+            if t == "self.output.id":
+                return "REF"
+            if t.startswith("''.join(") and "self.layers" in t:
+                return "LAYERS"
+            return None
+
+        return kind
 
     for m in ("name", "loop_name"):
         fn = ix.func(f"{BUCKET}.{m}").node
         for n in ast.walk(fn):
             if isinstance(n, ast.Call) and u(n.func) == "Variable" and _template_arg(fn, n) is not None:
-                templates[f"_bucket.py:{m}"] = fstring_tokens(_template_arg(fn, n), bucket_kind)
+                templates[f"_bucket.py:{m}"] = fstring_tokens(_template_arg(fn, n), bucket_kind_for(fn))
     templates["raw user name (index / tensor)"] = [[[("U",)]]]
     if len(templates) < 14:
         raise AnalysisError(f"only {len(templates)} identifier templates extracted")
